@@ -51,6 +51,8 @@ Theorem to_machine_dict_eq c :
   PolyhedralIoContract_to_machine_dict c = to_machine_dict c.
 Proof.
   intros Ha Hg. unfold PolyhedralIoContract_to_machine_dict, to_machine_dict. cbv zeta.
+  (* a list of names built by an explicit loop with append is the comprehension *)
+  rewrite ?loop_append_map. cbn [app].
   rewrite !map_var_name. unfold jstrs, jlist. rewrite !map_map.
   rewrite (map_ext_in _ term_to_json (pa c)).
   - rewrite (map_ext_in _ term_to_json (pg c)); [reflexivity|].
